@@ -145,7 +145,7 @@ func (g *gen) genConfig() *Config {
 	}
 	usedIdent := map[Ident]bool{}
 	for i := 0; i < nregs; i++ {
-		r := &Reg{ID: i}
+		r := &Reg{ID: len(c.Regs)}
 		r.Life = g.weighted(StCfg, o.WLife[:])
 		// form
 		switch {
@@ -250,6 +250,19 @@ func (g *gen) genConfig() *Config {
 					r.Name = keyPool[tries%len(keyPool)]
 					r.Group = ""
 				}
+			}
+		}
+		if !wantDup {
+			clash := false
+			seen := map[Ident]bool{}
+			for _, p := range regIdents(r) {
+				if p.Id.Group == "" && (usedIdent[p.Id] || seen[p.Id]) {
+					clash = true
+				}
+				seen[p.Id] = true
+			}
+			if clash {
+				continue // pool exhausted: drop this registration rather than create a duplicate
 			}
 		}
 		// dependencies
